@@ -75,7 +75,7 @@ def specs(c):
   }''' % (L('HTMLAnd', 5), L('HTMLLess', 4), L('HTMLGreater', 4), L('HTMLQuote', 6), L('HTMLSingleQuote', 6),
          admissible('(str + (g_i - g_next))', '(length - (g_i - g_next))'), ent_at('(str + length)', '(g_len - g_next)'))
     main = dict(
-        buffers=[('str', 'length')], refs=['stream'], harness_setup=['g_base = str;'],
+        buffers=[('str', 'length')], refs=['stream'], harness_setup=['g_base = str; g_next = 0; g_len = length; g_pend_valid = 0;'],
         requires=['g_next == 0 && g_len == length && g_base == str && !g_pend_valid'],
         ensures=['g_next == length'],
         assigns=['g_next', 'g_pending', 'g_pend_ent', 'g_pend_valid'],
